@@ -67,6 +67,9 @@ type Image struct {
 	Exists bool
 	Data   []byte
 	Seq    int
+	// what else a killed process leaves next to the state file: files whose name starts with the state file's name
+	// (temporary files of an unfinished save), keyed by the rest of their name
+	Siblings map[string][]byte
 }
 
 type CmdObs struct {
@@ -236,7 +239,23 @@ func shortPath(p string) string {
 
 func (w *World) snapshotLocked(after string) {
 	b, err := os.ReadFile(w.State)
-	w.Images = append(w.Images, Image{After: after, Exists: err == nil, Data: b, Seq: len(w.FileLog)})
+	im := Image{After: after, Exists: err == nil, Data: b, Seq: len(w.FileLog)}
+	if i := strings.LastIndex(w.State, "/"); i >= 0 {
+		dir, base := w.State[:i], w.State[i+1:]
+		if ents, derr := os.ReadDir(dir); derr == nil {
+			for _, e := range ents {
+				if n := e.Name(); n != base && strings.HasPrefix(n, base) && !e.IsDir() {
+					if sb, rerr := os.ReadFile(dir + "/" + n); rerr == nil {
+						if im.Siblings == nil {
+							im.Siblings = map[string][]byte{}
+						}
+						im.Siblings[strings.TrimPrefix(n, base)] = sb
+					}
+				}
+			}
+		}
+	}
+	w.Images = append(w.Images, im)
 }
 
 func (w *World) Snapshot(after string) {
